@@ -14,16 +14,16 @@ ASSUMPTIONS = ec.ASSUMPTIONS + [
     "'always returns' is decided as: the symbolic execution of execute terminates with every loop bound obligation unsat (no loop of the engine can run longer than its bound for any rule set of this shape) and the result is Ok",
 ]
 TIERS = {
-    "quick": [{"R": 3, "C": 3, "entry": "callback"}],
-    "thorough": [{"R": 3, "C": 5, "entry": "callback"}, {"R": 4, "C": 3, "entry": "callback"}, {"R": 3, "C": 3, "entry": "at_time"}],
+    "quick": [{"R": 2, "C": 3, "entry": "callback"}, {"R": 3, "C": 3, "entry": "callback", "extras": False}],
+    "thorough": [{"R": 3, "C": 2, "entry": "callback"}, {"R": 3, "C": 4, "entry": "callback", "extras": False}, {"R": 2, "C": 3, "entry": "at_time"}],
 }
 BOUNDS_NOTE = "bounds: R rules (self-triggering and mutually triggering without no-loop included), max_cycles symbolic in 0..C (not 0..64); see runs[].bounds"
 
 
-def run(R, C, entry, witness=False):
+def run(R, C, entry, extras=True, witness=False):
     h = Harness(FILES, cap=max(R, 4) + 2, loop_bound=max(C, R) + 2, rec_bound=4)
     ip = h.ip
-    d = ec.build(h, R, C, entry)
+    d = ec.build(h, R, C, entry, extras)
     out = d["out"]
     h.tag = "result"
     h.require(ip.tag_eq(out, 0), "C03: execute returned an error")
@@ -56,7 +56,7 @@ def run(R, C, entry, witness=False):
     if witness:
         h.require(False, "C03 witness")
     r = h.decide()
-    r["bounds"] = {"rules": R, "max_cycles_up_to": C, "entry": entry}
+    r["bounds"] = {"rules": R, "max_cycles_up_to": C, "entry": entry, "activation_actions_and_removed_rule": extras}
     r["harness"] = h
     r["R"], r["entry"] = R, entry
     return r
